@@ -383,14 +383,17 @@ func EventsStr(log []*verifstore.Request) string {
 			if r.Err != "" {
 				res = r.Err
 			}
-			pu, pr := "-", "-"
+			// the resourceVersion precondition is not printed (resourceVersions are not comparable
+			// between the two stores); whether it was honoured shows in the result (Conflict).
+			pu := "-"
 			if r.PreUID != nil {
 				pu = uidNum(*r.PreUID)
 			}
+			pr := "norv"
 			if r.PreRV != nil {
-				pr = *r.PreRV
+				pr = "rv"
 			}
-			out = append(out, fmt.Sprintf("D %s u=%s rv=%s %s", keyStr(r.Key), pu, pr, res))
+			out = append(out, fmt.Sprintf("D %s u=%s %s %s", keyStr(r.Key), pu, pr, res))
 		default:
 			out = append(out, strings.ToUpper(r.Verb)+" "+keyStr(r.Key)+" "+r.Err)
 		}
